@@ -26,12 +26,12 @@ __CPROVER_assigns(state_p->mode_invalid, state_p->result, state_p->reason, *txfe
 VERIF_REACH_DECL(ConnectBlock_fee_accumulation)
 int ConnectBlock_fee_accumulation(CAmount* nFees_p, CAmount txfee, BlockValidationState* state_p)
 __CPROVER_requires(__CPROVER_is_fresh(nFees_p, sizeof(CAmount)) && __CPROVER_is_fresh(state_p, sizeof(*state_p)) && STATE_FRESH(state_p) && MR(*nFees_p) && MR(txfee))
-__CPROVER_ensures(__CPROVER_return_value == 0 ==> (*nFees_p == __CPROVER_old(*nFees_p) + txfee && MR(*nFees_p) && STATE_FRESH(state_p)))
 #ifdef TWIN_FEES
-__CPROVER_ensures(__CPROVER_return_value != 0 ==> (__CPROVER_return_value == 1 && state_p->mode_invalid == 1 && state_p->result == BLOCK_CONSENSUS && state_p->reason == SPEC_R_bad_txns_accumulated_fee_outofrange && (__int128)__CPROVER_old(*nFees_p) + txfee >= SPEC_MAX_MONEY))
+__CPROVER_ensures(__CPROVER_return_value == 0 ==> (*nFees_p == __CPROVER_old(*nFees_p) + txfee && *nFees_p >= 0 && *nFees_p < SPEC_MAX_MONEY && STATE_FRESH(state_p)))
 #else
-__CPROVER_ensures(__CPROVER_return_value != 0 ==> (__CPROVER_return_value == 1 && state_p->mode_invalid == 1 && state_p->result == BLOCK_CONSENSUS && state_p->reason == SPEC_R_bad_txns_accumulated_fee_outofrange && (__int128)__CPROVER_old(*nFees_p) + txfee > SPEC_MAX_MONEY))
+__CPROVER_ensures(__CPROVER_return_value == 0 ==> (*nFees_p == __CPROVER_old(*nFees_p) + txfee && MR(*nFees_p) && STATE_FRESH(state_p)))
 #endif
+__CPROVER_ensures(__CPROVER_return_value != 0 ==> (__CPROVER_return_value == 1 && state_p->mode_invalid == 1 && state_p->result == BLOCK_CONSENSUS && state_p->reason == SPEC_R_bad_txns_accumulated_fee_outofrange && (__int128)__CPROVER_old(*nFees_p) + txfee > SPEC_MAX_MONEY))
 VERIF_REACH_ENSURES(ConnectBlock_fee_accumulation, __CPROVER_return_value == 0 && *nFees_p == SPEC_MAX_MONEY)
 VERIF_REACH_ENSURES(ConnectBlock_fee_accumulation, __CPROVER_return_value == 1)
 __CPROVER_assigns(*nFees_p, state_p->mode_invalid, state_p->result, state_p->reason);
@@ -79,8 +79,8 @@ __CPROVER_assigns(state_p->mode_invalid, state_p->result, state_p->reason);
 #define flags nLockTimeFlags
 VERIF_REACH_DECL(ConnectBlock_bip68_gate)
 int ConnectBlock_bip68_gate(const CTransaction* tx_p, int nLockTimeFlags, int* prevheights, const CCoinsViewCache* view_p, const CBlockIndex* pindex, BlockValidationState* state_p)
-__CPROVER_requires(FRESH_TX(tx_p) && tx_p->vin_size >= 1 && FRESH_VIEW(view_p, tx_p) && FRESH_BLOCK(pindex) && __CPROVER_is_fresh(pindex->pprev, sizeof(CBlockIndex)))
-__CPROVER_requires(__CPROVER_is_fresh(prevheights, sizeof(int) * tx_p->vin_size) && __CPROVER_is_fresh(state_p, sizeof(*state_p)) && STATE_FRESH(state_p))
+__CPROVER_requires(FRESH_TX(tx_p) && tx_p->vin_size >= 1 && FRESH_VIEW(view_p, tx_p) && FRESH_BLOCK(pindex) && __CPROVER_is_fresh(pindex->pprev, sizeof(CBlockIndex)) && FRESH_ANC(tx_p, prevheights))
+__CPROVER_requires(__CPROVER_is_fresh(prevheights, sizeof(int) * tx_p->vin_size) && g_prevheights_ptr == prevheights && __CPROVER_is_fresh(state_p, sizeof(*state_p)) && STATE_FRESH(state_p))
 /* the heights handed to the lock computation are the confirmation heights of the coins being spent, which are not above this block */
 __CPROVER_requires(g_n < tx_p->vin_size ==> (g_old_h == (int)view_p->coins[g_n].nHeight && g_old_h <= pindex->nHeight))
 __CPROVER_ensures(__CPROVER_return_value == 0 ==> (STATE_FRESH(state_p) && ((ENFORCED && g_n < tx_p->vin_size) ==> BIP68_OK_AT_GN)))
@@ -94,9 +94,17 @@ __CPROVER_assigns(state_p->mode_invalid, state_p->result, state_p->reason, g_cur
 
 /* ---- ContextualCheckBlock: lock-time cutoff and the finality loop ---- */
 typedef struct { uint32_t nTime; const CTransaction* const* vtx; size_t vtx_size; } CBlock;
+/* IsFinalTx(*tx, h, t) inside the loop: g_isfinal[k] IS, by definition, IsFinalTx(vtx[k], height of this block, cutoff of the statement) (IsFinalTx's own contract
+ * says what that means); the stub asserts that the code asks exactly that question while working on transaction k (= g_cur). */
+const bool* g_isfinal; int g_exp_height; int64_t g_exp_cutoff; const CBlock* g_block;
 #ifdef VERIF_CBMC
-bool __CPROVER_uninterpreted_isfinal(const CTransaction* tx, int h, int64_t t);     /* IsFinalTx(tx, h, t): its own contract above says what it means */
-#define IsFinalTx_call(tx, h, t) __CPROVER_uninterpreted_isfinal(tx, h, t)
+static inline bool IsFinalTx_call(const CTransaction* tx, int h, int64_t t)
+{
+    __CPROVER_assert(tx == g_block->vtx[g_cur], "IsFinalTx is asked about the transaction of the current iteration");
+    __CPROVER_assert(h == g_exp_height, "IsFinalTx is asked at the height of the block being checked (previous height + 1, genesis 0)");
+    __CPROVER_assert(t == g_exp_cutoff, "IsFinalTx is asked at the statement's cutoff: previous block's median time past once BIP113 is active, else the block's own time");
+    return g_isfinal[g_cur];
+}
 #endif
 #define GHOST_BLOCKTX_STEP(i) (g_cur = (i))
 #define SPEC_HEIGHT (pindexPrev == NULL ? 0 : pindexPrev->nHeight + 1)
@@ -108,16 +116,18 @@ bool __CPROVER_uninterpreted_isfinal(const CTransaction* tx, int h, int64_t t); 
 #define LOOP_BLOCKTXS \
     __CPROVER_assigns(i_tx, g_cur) \
     __CPROVER_loop_invariant(i_tx <= block_p->vtx_size) \
-    __CPROVER_loop_invariant(g_t < i_tx ==> __CPROVER_uninterpreted_isfinal(block_p->vtx[g_t], SPEC_HEIGHT, SPEC_CUTOFF)) \
+    __CPROVER_loop_invariant(g_t < i_tx ==> g_isfinal[g_t]) \
     __CPROVER_decreases(block_p->vtx_size - i_tx)
 VERIF_REACH_DECL(ContextualCheckBlock_locktime)
 bool ContextualCheckBlock_locktime(const CBlock* block_p, BlockValidationState* state_p, const CBlockIndex* pindexPrev, bool csv_active_after_prev)
-__CPROVER_requires(__CPROVER_is_fresh(block_p, sizeof(*block_p)) && block_p->vtx_size <= SPEC_MAXLEN && (block_p->vtx_size > 0 ==> __CPROVER_is_fresh(block_p->vtx, sizeof(CTransaction*) * block_p->vtx_size)))
+__CPROVER_requires(__CPROVER_is_fresh(block_p, sizeof(*block_p)) && block_p->vtx_size <= SPEC_MAXLEN && __CPROVER_is_fresh(block_p->vtx, sizeof(CTransaction*) * (block_p->vtx_size > 0 ? block_p->vtx_size : 1)))
+__CPROVER_requires(__CPROVER_is_fresh(g_isfinal, sizeof(bool) * (block_p->vtx_size > 0 ? block_p->vtx_size : 1)) && g_block == block_p)
 __CPROVER_requires((pindexPrev == NULL || (__CPROVER_is_fresh(pindexPrev, sizeof(CBlockIndex)) && pindexPrev->nHeight >= 0 && pindexPrev->nHeight < INT_MAX)) && (csv_active_after_prev ==> pindexPrev != NULL))
 __CPROVER_requires(__CPROVER_is_fresh(state_p, sizeof(*state_p)) && STATE_FRESH(state_p))
+__CPROVER_requires(g_exp_height == SPEC_HEIGHT && g_exp_cutoff == SPEC_CUTOFF)
 /* accepted => every transaction is final at (height of this block, MTP of the previous block once BIP113 is active, else the block's own time) */
-__CPROVER_ensures(__CPROVER_return_value ==> (STATE_FRESH(state_p) && (g_t < block_p->vtx_size ==> __CPROVER_uninterpreted_isfinal(block_p->vtx[g_t], SPEC_HEIGHT, SPEC_CUTOFF))))
-__CPROVER_ensures(!__CPROVER_return_value ==> (state_p->mode_invalid == 1 && state_p->result == BLOCK_CONSENSUS && state_p->reason == SPEC_R_bad_txns_nonfinal && g_cur < block_p->vtx_size && !__CPROVER_uninterpreted_isfinal(block_p->vtx[g_cur], SPEC_HEIGHT, SPEC_CUTOFF)))
+__CPROVER_ensures(__CPROVER_return_value ==> (STATE_FRESH(state_p) && (g_t < block_p->vtx_size ==> g_isfinal[g_t])))
+__CPROVER_ensures(!__CPROVER_return_value ==> (state_p->mode_invalid == 1 && state_p->result == BLOCK_CONSENSUS && state_p->reason == SPEC_R_bad_txns_nonfinal && g_cur < block_p->vtx_size && !g_isfinal[g_cur]))
 VERIF_REACH_ENSURES(ContextualCheckBlock_locktime, __CPROVER_return_value && csv_active_after_prev && block_p->vtx_size > 1)
 VERIF_REACH_ENSURES(ContextualCheckBlock_locktime, __CPROVER_return_value && !csv_active_after_prev && pindexPrev == NULL)
 VERIF_REACH_ENSURES(ContextualCheckBlock_locktime, !__CPROVER_return_value && g_cur > 0)
